@@ -47,8 +47,14 @@ ASSUMPTIONS = [
     "only - the server's queues, priority flags, parked/scheduled loop and h2 windows read defensively",
     "transport back-pressure on the H2Connection (pauseProducing from the TCP transport) and RST_STREAM are outside the statement and not in the alphabet",
 ]
-MIN = {"quick": {"states": 20000, "nontrivial": 10000, "outcomes": 10, "closures": 25000},
+MIN = {"quick": {"states": 160000, "nontrivial": 130000, "outcomes": 10, "closures": 280000},
        "thorough": {"states": 300000, "nontrivial": 150000, "outcomes": 10}}
+
+LEVEL_TEXT = ("bounded model checking: every history up to the stated depth over the stated alphabet and configurations is executed on the real "
+              "H2Connection/H2Stream/http.Request objects; safety is decided by an exact window ledger plus the h2 client, resumption and "
+              "completeness by a completion run from every canonical state")
+LEVEL_NOTE = ("trusts h2's state machines and the round-robin priority stand-in; not covered: histories beyond the depth bound, windows/bodies "
+              "larger than 2w, more than 2 streams, RST_STREAM, request bodies, transport back-pressure on the connection")
 
 BIG = 1000
 CONN0 = 65535
@@ -567,7 +573,8 @@ def _loop_sig(st):
 
 def closure(st, mode):
     """Fair completion from the current state, on the real objects (destroys st).  mode 'wu': the client opens every
-    window with WINDOW_UPDATE; mode 'set': the stream windows are opened by SETTINGS INITIAL_WINDOW_SIZE alone."""
+    window with WINDOW_UPDATE (the connection window only where it binds); mode 'conn': a connection WINDOW_UPDATE alone
+    (used where that suffices); mode 'set': the stream windows are opened by SETTINGS INITIAL_WINDOW_SIZE alone."""
     if st.dead:
         return []
     _cur[0] = st
@@ -818,6 +825,9 @@ def run_shard(shard, tier, seed):
     res = bfs(lambda: St(cfg), apply, en, canon, invariant, p["depth"], max_violations=10 ** 6, on_state=on_state)
     on_state(St(cfg), [])
     stats.add_bfs(res, {"cfg": cfg})
+    if _stray:
+        stats.count("stray_logged_failures", len(_stray))
+        del _stray[:]
     stats.samples = [{"cfg": cfg, "history": h} for h in res.samples[-1:]]
     return stats
 
